@@ -74,8 +74,12 @@ impl Monitor for C05 {
         let dct = DataCfg { keys: 1 + rng.below(3), ..DataCfg::random(rng, t.schema.cols.len(), false) };
         let dcu = DataCfg { keys: 1 + rng.below(3), ..DataCfg::random(rng, u.schema.cols.len(), false) };
         let nt = rng.below(13); let nu = rng.below(13);
-        let tl = std_lines(rng, &t, nt, &dct);
-        let ul = std_lines(rng, &u, nu, &dcu);
+        let mut tl = std_lines(rng, &t, nt, &dct);
+        let mut ul = std_lines(rng, &u, nu, &dcu);
+        // repeated log lines: rows that are equal in every column must still be paired once each
+        for lines in [&mut tl, &mut ul] {
+            if !lines.is_empty() && rng.chance(1, 2) { for _ in 0..(1 + rng.below(3)) { let l = lines[rng.below(lines.len())].clone(); let at = rng.below(lines.len() + 1); lines.insert(at, l); } }
+        }
         let key_choices: Vec<&str> = ["k", "g", "i", "r", "b", "s", "ts", "iv"].into_iter().filter(|c| t.schema.ty_of(c).is_some() && u.schema.ty_of(c).is_some()).collect();
         let key = *rng.pick(&key_choices);
         // statement over the virtual pre-joined schema
